@@ -123,7 +123,8 @@ AddManyLists == {<<Tpl(1, 1), Tpl(2, 3)>>, <<Tpl(1, 0), Tpl(1, 3)>>, <<Tpl(1, 3)
 AddManyOps == {OpRec("addmany", 0, NoEntry, "", 0, "", FALSE, <<>>, <<>>, es) : es \in AddManyLists}
 IdLists == {<<>>, <<1>>, <<2>>, <<1, 2>>}
 RemoveOps == {OpRec("removeAll", 0, NoEntry, "", 0, "", FALSE, l, <<>>, <<>>) : l \in IdLists}
-BRemoveOps == {OpRec("bremove", 0, NoEntry, "", 0, "", FALSE, l, <<>>, <<>>) : l \in IdLists \ {<<>>}}
+\* a backend remove packet may list no player at all: it removes nothing
+BRemoveOps == {OpRec("bremove", 0, NoEntry, "", 0, "", FALSE, l, <<>>, <<>>) : l \in IdLists}
 
 VerActs(v, acts) == SelectSeq(acts, LAMBDA a : (a # "order" \/ v >= 768) /\ (a # "hat" \/ v >= 769))
 ActionSets == {<<"add", "chat", "gm", "listed", "lat", "disp", "order", "hat">>, <<"add">>,
